@@ -87,6 +87,27 @@ def gen_and_judge(ctx, pid, profile, kind, traces, ops, queries, workdir, tag):
         return list(ex.map(one, jobs))
 
 
+def replay_and_judge(ctx, files, workdir):
+    """re-execute the operations of stored traces (corpus / --replay) on the current tree and judge them"""
+    drv = build.driver("kernel_drv", flavor="asan")
+    judge = build.judge_exe()
+    workdir.mkdir(parents=True, exist_ok=True)
+    out = []
+    env = {"ASAN_OPTIONS": "detect_leaks=0:abort_on_error=1", "UBSAN_OPTIONS": "print_stacktrace=1"}
+    for i, f in enumerate(files):
+        head = open(f).readline().split()
+        profile = head[2] if len(head) > 2 and head[0] == "T" else "core"
+        kind = next((w.split("=")[1] for w in head if w.startswith("kind=")), "poly")
+        o = workdir / ("corpus-%d-%s" % (i, Path(f).name))
+        p = run([str(drv), "--kind", kind, "--profile", profile, "--seed", str(ctx.seed), "--replay", str(f), "--out", str(o)],
+                env=env, check=False, timeout=600)
+        j = run([str(judge), str(o)], check=False, timeout=600)
+        if j.returncode != 0:
+            raise RuntimeError("judge failed on %s: %s" % (o, j.stderr[-2000:]))
+        out.append((o, j.stdout.splitlines(), p.stderr))
+    return out
+
+
 def trace_prefix(tracefile, trace_no, step):
     """The O-lines (plus I line) of one trace up to and including `step`: a replayable history."""
     out = []
@@ -127,13 +148,21 @@ def run_kernel(ctx, pid, plans, accept_oracle=None, extra_stats=None, level_when
     crashes = []
     drift = collections.Counter()
     samples = []
-    # corpus first
+    # corpus first: minimised past failures (traces that exposed seeded changes or real defects), replayed on the current tree
     corpus_dir = CORPUS / pid
     plans = list(plans)
+    batches = []
+    corpus_files = sorted(corpus_dir.glob("*.trace")) if corpus_dir.is_dir() else []
+    if ctx.replay:
+        corpus_files, plans = [Path(ctx.replay)], []
+    if corpus_files:
+        batches.append(replay_and_judge(ctx, corpus_files, workdir))
+    stats["corpus_traces"] += len(corpus_files)
     for plan in plans:
         traces = plan["traces"][0] if ctx.quick else plan["traces"][1]
-        results = gen_and_judge(ctx, pid, plan["profile"], plan["kind"], traces, plan["ops"], plan.get("queries", 34),
-                                workdir, pid)
+        batches.append(gen_and_judge(ctx, pid, plan["profile"], plan["kind"], traces, plan["ops"], plan.get("queries", 34),
+                                     workdir, pid))
+    for results in batches:
         for tracefile, lines, stderr in results:
             for l in lines:
                 if l.startswith("STAT "):
@@ -214,6 +243,7 @@ def run_kernel(ctx, pid, plans, accept_oracle=None, extra_stats=None, level_when
         "rule": "structured random histories from harness/kernel_drv.cc (seeded by VERIF_SEED); a state is the "
                 "(definitions, flags, modes) tuple after a step, hashed; non-trivial = at least one cell or a pending deletion",
         "queries_compared": int(stats["queries"]),
+        "corpus_traces_replayed_first": int(stats["corpus_traces"]),
         "op_histogram": dict(hist_ops),
         "mode_bu_histogram(deferred,fast,vBU,eBU,fBU)": dict(hist_modes),
         "model_drift(informational)": dict(drift),
